@@ -214,6 +214,44 @@ fn main() {
         let e = gen_key(KeyVersion::V4, KeyType::ECDSA(ECCCurve::P256), 15);
         cx.issuing_sites(&e, &b4, "issuing-ecdsa-v4");
     }
+    // signing subkeys: the back signature (primary key binding, made by the subkey) embedded in the subkey binding
+    // names the subkey as its issuer; the binding itself names the primary
+    for (ver, kt, name) in [(KeyVersion::V4, KeyType::Ed25519Legacy, "v4"), (KeyVersion::V4, KeyType::ECDSA(ECCCurve::P256), "v4-p256"), (KeyVersion::V6, KeyType::Ed25519, "v6")] {
+        use pgp::composed::{SecretKeyParamsBuilder, SubkeyParamsBuilder};
+        let r = guarded(|| -> Option<SignedSecretKey> {
+            let mut s = SubkeyParamsBuilder::default(); s.version(ver).key_type(kt.clone()).can_sign(true);
+            let mut p = SecretKeyParamsBuilder::default();
+            p.version(ver).key_type(kt.clone()).can_certify(true).can_sign(true).primary_user_id("backsig <b@example.org>".into()).subkeys(vec![s.build().ok()?]);
+            p.build().ok()?.generate(Rng::new(1313)).ok()
+        });
+        let Ok(Some(k)) = r else { continue; };
+        let v4 = ver == KeyVersion::V4;
+        for (path, subs) in [("secret", k.secret_subkeys.iter().map(|s| (s.key.fingerprint(), s.key.legacy_key_id(), s.signatures.clone())).collect::<Vec<_>>()),
+                             ("public", SignedPublicKey::from(k.clone()).public_subkeys.iter().map(|s| (s.key.fingerprint(), s.key.legacy_key_id(), s.signatures.clone())).collect::<Vec<_>>())] {
+            for (sfp, sid, sigs) in subs {
+                for sig in sigs {
+                    let pfp = k.primary_key.fingerprint(); let pid = k.primary_key.legacy_key_id();
+                    let binding_ok = { let f = sig.issuer_fingerprint(); !f.is_empty() && f.iter().all(|x| **x == pfp) } && sig.issuer_key_id().iter().all(|i| **i == pid) && (!v4 || !sig.issuer_key_id().is_empty());
+                    cx.out.case("", &[], &["backsig".into(), name.into(), path.into(), "binding".into()], if binding_ok { "issuer=primary" } else { "issuer!=primary" }, Some(binding_ok), "issuing-subkey-binding");
+                    match sig.embedded_signature() {
+                        Some(b) => {
+                            let ok = { let f = b.issuer_fingerprint(); !f.is_empty() && f.iter().all(|x| **x == sfp) } && b.issuer_key_id().iter().all(|i| **i == sid) && (!v4 || !b.issuer_key_id().is_empty());
+                            cx.out.case("", &[], &["backsig".into(), name.into(), path.into(), "embedded".into()], if ok { "issuer=subkey" } else { "issuer!=subkey" }, Some(ok), "issuing-back-signature");
+                        }
+                        None => cx.out.case("", &[], &["backsig".into(), name.into(), path.into(), "embedded".into()], "no back signature", Some(false), "issuing-back-signature"),
+                    }
+                }
+            }
+        }
+        // and the direct call
+        if let Some(sub) = k.secret_subkeys.first() {
+            let r = guarded(|| sub.key.sign_primary_key_binding(Rng::new(1), &k.primary_key.public_key(), &Password::empty()).ok());
+            if let Ok(Some(b)) = r {
+                let ok = { let f = b.issuer_fingerprint(); !f.is_empty() && f.iter().all(|x| **x == sub.key.fingerprint()) } && b.issuer_key_id().iter().all(|i| **i == sub.key.legacy_key_id()) && (!v4 || !b.issuer_key_id().is_empty());
+                cx.out.case("", &[], &["backsig".into(), name.into(), "direct".into()], if ok { "issuer=subkey" } else { "issuer!=subkey" }, Some(ok), "issuing-back-signature");
+            }
+        }
+    }
     // every key fixture of the repository, on the wire octets
     let mut files = Vec::new();
     fn walk(p: &std::path::Path, out: &mut Vec<std::path::PathBuf>) { if let Ok(rd) = std::fs::read_dir(p) { for e in rd.flatten() { let p = e.path(); if p.is_dir() { walk(&p, out); } else { out.push(p); } } } }
